@@ -175,16 +175,21 @@ def raw_bytes(data, note):
 # ---------------------------------------------------------------------------
 
 file_case = st.tuples(dump_case(), st.integers(1, 2), st.booleans(), st.sampled_from(['padded', 'cut']),
-                      st.sampled_from([0, 0xFFE0, 0x1230]), st.booleans(), st.sampled_from(['\n', '\n', '', '\r\n']))
+                      st.sampled_from([0, 0xFFE0, 0x1230]), st.booleans(), st.sampled_from(['\n', '\n', '', '\r\n']),
+                      st.sampled_from([0, 0, 1, 3, 15, 16, 17, 40, 200]))
 
 
 @PROP.given('dump-files', lambda tier: file_case, quick=200, thorough=8000, shards_quick=8)
 def dump_files(case, note):
-    dc, fi, lower, last_line, base, use_cli, final_newline = case
+    dc, fi, lower, last_line, base, use_cli, final_newline, preamble = case
     data = dc['data']
     d = dump()
     hdr, strf = D.shipped('mex_pte.h'), D.shipped('mexStringFile')
     rendered = render_hex(fi, data, lower, last_line, base)
+    if rendered:
+        # a dump saved from a web page / resource dump carries any number of non-data lines in front
+        head = ['IO drawer dump', '', '# collected by service', '--- begin ---']
+        rendered = [head[i % len(head)] for i in range(preamble)] + rendered
     # the file may or may not end with a line terminator
     text = '\n'.join(rendered) + (final_newline if rendered and final_newline != '\r\n' else '')
     if final_newline == '\r\n' and last_line == 'padded':
